@@ -6,11 +6,6 @@ use std::str::FromStr;
 
 use crate::error::Error;
 
-// numeric characters according to parseFloat
-const NUMERICS: &'static [char] = &[
-    '0', '1', '2', '3', '4', '5', '6', '7', '8', '9', '0', '.', '-', '+', 'e', 'E',
-];
-
 // TODOS:
 // - there are too many tests in docstrings
 // - the docstrings are too sarcastic about JS equality
@@ -729,45 +724,49 @@ pub fn to_negative(val: &Value) -> Result<f64, Error> {
 /// and NaN. That is okay, because this is only used in a context dealing
 /// with JSON values, which can't be Infinity or NaN.
 fn parse_float_string(val: &String) -> Option<f64> {
-    let (mut leading_numerics, _, _) = val.trim().chars().fold(
-        (Vec::new(), false, false),
-        |(mut acc, broke, saw_decimal), c| {
-            if broke {
-                // if we hit a nonnumeric last iter, just return what we've got
-                (acc, broke, saw_decimal)
-            } else if NUMERICS.contains(&c) {
-                let is_decimal = c == '.';
-                if saw_decimal && is_decimal {
-                    // if we're a decimal and we've seen one before, break
-                    (acc, true, is_decimal)
-                } else {
-                    // if we're a numeric, stick it on the acc
-                    acc.push(c);
-                    (acc, broke, saw_decimal || is_decimal)
-                }
-            } else {
-                // return the acc as is and let 'em know we hit a nonnumeric
-                (acc, true, saw_decimal)
-            }
-        },
-    );
-    // don't bother collecting into a string if we don't need to
-    if leading_numerics.len() == 0 {
-        return None;
-    };
-    if let Some('e') | Some('E') = leading_numerics.last() {
-        // If the last character is an 'e' or an `E`, remove it, to match
-        // edge case where JS ignores a trailing `e` rather than treating it
-        // as bad exponential notation, e.g. JS treats 1e as just 1.
-        leading_numerics.pop();
+    // Skip leading whitespace, then take the longest prefix that is a decimal
+    // literal: sign, digits, fraction, and an exponent only if it is complete
+    // ("1e+" is 1, "1-2" is 1, "12px" is 12). Anything after it is ignored.
+    let s = val.trim_start_matches(is_js_whitespace);
+    let bytes = s.as_bytes();
+    let mut end = 0;
+    if end < bytes.len() && (bytes[end] == b'+' || bytes[end] == b'-') {
+        end += 1;
     }
-
-    // collect into a string, try to parse as a float, return an option
-    leading_numerics
-        .iter()
-        .collect::<String>()
-        .parse::<f64>()
-        .ok()
+    let mut digits = 0;
+    while end < bytes.len() && bytes[end].is_ascii_digit() {
+        end += 1;
+        digits += 1;
+    }
+    if end < bytes.len() && bytes[end] == b'.' {
+        let mut frac_end = end + 1;
+        while frac_end < bytes.len() && bytes[frac_end].is_ascii_digit() {
+            frac_end += 1;
+        }
+        let frac_digits = frac_end - (end + 1);
+        // a lone "." (no digit on either side) is not part of a number
+        if digits + frac_digits > 0 {
+            digits += frac_digits;
+            end = frac_end;
+        }
+    }
+    if digits == 0 {
+        return None;
+    }
+    if end < bytes.len() && (bytes[end] == b'e' || bytes[end] == b'E') {
+        let mut exp_end = end + 1;
+        if exp_end < bytes.len() && (bytes[exp_end] == b'+' || bytes[exp_end] == b'-') {
+            exp_end += 1;
+        }
+        let exp_digits_start = exp_end;
+        while exp_end < bytes.len() && bytes[exp_end].is_ascii_digit() {
+            exp_end += 1;
+        }
+        if exp_end > exp_digits_start {
+            end = exp_end;
+        }
+    }
+    s[..end].parse::<f64>().ok()
 }
 
 /// Attempt to parse a value into a float.
